@@ -91,3 +91,21 @@ let () =
          | _ -> ignore obs_cmp; v)))
       ["Sqrt"; "SqrtRat"; "SqrtBigInt"; "SqrtBigRat"; "CubeRoot"; "CubeRootRat"; "CubeRootBigInt"; "CubeRootBigRat"; "FromBigRat"])
     ["C01"; "C02"; "C03"; "C13"]
+
+(* ConcRoots g (ctor num den depth)* => obs_1 obs_2 ... : Numbers computed concurrently are independent *)
+let () = reg "C05" "ConcRoots" (fun ver args obs ->
+  let a = mk args in
+  let g = next_int a in
+  let rest = ref obs in
+  let model = ref [] and spec = ref None in
+  (try
+    for i = 1 to g do
+      let op = next a in let num = next a in let den = next a in let depth = next a in
+      let (o, r) = split_obs !rest in
+      rest := r;
+      let (v, _) = root_handler op ver [num; den; depth] o in
+      model := !model @ v.model;
+      (match v.spec with Some m when !spec = None -> spec := Some (Printf.sprintf "number %d: %s" i m) | _ -> ())
+    done
+  with Exhausted | Failure _ -> spec := Some "malformed observation");
+  { model = !model; tags = ["concurrent-roots"]; spec = !spec; known = None })
